@@ -38,6 +38,17 @@ type WEmbIdx struct {
 	Audit WEmbIdxInner `sql:"embedded_prefix:audit_"`
 }
 
+// seeded change C10-k: value-carrying tag keys written in camelCase with upper-case letters in their values
+type WCamelInner struct {
+	Code string `sql:"indexType:HASH"`
+	Zone string `sql:"index"`
+}
+
+type WCamelVals struct {
+	ID    int         `sql:"primaryKey"`
+	Audit WCamelInner `sql:"embeddedPrefix:Aud_"`
+}
+
 // seeded change C06-g: a struct flattened with plain `squash` inside a struct embedded with a prefix keeps the outer prefix
 type WSqInner struct {
 	CreatedAt string
@@ -78,6 +89,9 @@ var witnessCases = []structCase{
 	{id: "wst-index-in-prefixed-embedded", cfg: my, obj: WEmbIdx{},
 		decl:   `(decl "WEmbIdx" "" ((field "ID" int "int" "primary_key") (field "Audit" (struct ((field "Code" string "string" "index_type:hash") (field "Zone" string "string" "index"))) "WEmbIdxInner" "embedded_prefix:audit_")))`,
 		expect: `(expect "w_emb_idx" ((col "id" "INT" ("pk") true) (col "audit_code" "TEXT" () false) (col "audit_zone" "TEXT" () false)) ((idx "idx_audit_code" ("audit_code") false "HASH") (idx "idx_audit_zone" ("audit_zone") false "")) () ())`},
+	{id: "wst-camel-keys-upper-values", cfg: my, obj: WCamelVals{},
+		decl:   `(decl "WCamelVals" "" ((field "ID" int "int" "primaryKey") (field "Audit" (struct ((field "Code" string "string" "indexType:HASH") (field "Zone" string "string" "index"))) "WCamelInner" "embeddedPrefix:Aud_")))`,
+		expect: `(expect "w_camel_vals" ((col "id" "INT" ("pk") true) (col "Aud_code" "TEXT" () false) (col "Aud_zone" "TEXT" () false)) ((idx "idx_Aud_code" ("Aud_code") false "HASH") (idx "idx_Aud_zone" ("Aud_zone") false "")) () ())`},
 	{id: "wst-previous-with-index", cfg: my, obj: WPrevIdx{},
 		decl:   `(decl "WPrevIdx" "" ((field "ID" int "int" "primary_key") (field "Email" string "string" "column:c_email,previous:old_email;index:ix_email")))`,
 		expect: `(expect "w_prev_idx" ((col "id" "INT" ("pk") true) (col "c_email" "TEXT" () false)) ((idx "ix_email" ("c_email") false "")) (("old_email" "c_email")))`},
